@@ -62,7 +62,9 @@ impl<'a> ColrInstance<'a> {
         let var_store = self.var_store.as_ref().unwrap();
         if let Some(index_map) = self.index_map.as_ref() {
             for (i, delta) in deltas.iter_mut().enumerate() {
-                let var_index = var_index_base + i as u32;
+                // The base is font controlled: an index past u32::MAX is out of range
+                // like any other index beyond the end of the map / delta sets.
+                let var_index = var_index_base.saturating_add(i as u32);
                 if let Ok(delta_ix) = index_map.get(var_index) {
                     *delta = var_store
                         .compute_float_delta(delta_ix, self.coords)
@@ -71,7 +73,9 @@ impl<'a> ColrInstance<'a> {
             }
         } else {
             for (i, delta) in deltas.iter_mut().enumerate() {
-                let var_index = var_index_base + i as u32;
+                // The base is font controlled: an index past u32::MAX is out of range
+                // like any other index beyond the end of the map / delta sets.
+                let var_index = var_index_base.saturating_add(i as u32);
                 // If we don't have a var index map, use our index as the inner
                 // component and set the outer to 0.
                 let delta_ix = DeltaSetIndex {
